@@ -44,6 +44,13 @@ func coYield(L *LState) int {
 	return -1
 }
 
+// maxNestedResumes bounds how deep resumes may nest (a coroutine resuming a
+// coroutine resuming ...). Every level keeps Go frames alive; without a bound,
+// runaway nesting ends in a fatal Go stack overflow or out-of-memory error
+// instead of an error the script can catch. Lua 5.1 fails with the same
+// message at LUAI_MAXCCALLS (200) nested C calls.
+const maxNestedResumes = 200
+
 func coResume(L *LState) int {
 	return resumeThread(L, L.CheckThread(1), false)
 }
@@ -66,14 +73,19 @@ func resumeThread(L *LState, th *LState, viaWrap bool) int {
 	if L.G.CurrentThread == th {
 		return refuse("can not resume a running thread")
 	}
+	depth := 0
 	for p := L; p != nil; p = p.Parent {
 		if p.Parent == th {
 			// th is waiting for the running coroutine (directly or not) to yield
 			return refuse("can not resume a non-suspended thread")
 		}
+		depth++
 	}
 	if th.Dead {
 		return refuse("can not resume a dead thread")
+	}
+	if depth >= maxNestedResumes {
+		return refuse("C stack overflow")
 	}
 	if th.stack.IsEmpty() {
 		// the body ended with `return coroutine.yield(...)`: the values
